@@ -58,7 +58,7 @@ import types
 import logging
 from io import BytesIO
 from itertools import count
-from collections import defaultdict, OrderedDict
+from collections import OrderedDict
 from base64 import b64encode, b64decode
 from inspect import isgeneratorfunction
 
@@ -170,7 +170,7 @@ class VersionedDict(object):
     """
 
     def __init__(self):
-        self._data = defaultdict(dict)
+        self._data = {}
 
     def __contains__(self, key):
         return key in self._data
@@ -227,14 +227,17 @@ class VersionedDict(object):
             version = int(version)
         except ValueError:
             raise ValueError("Version must be an integer: %s" % version)
-        if version > 1 and (version - 1) not in self._data[item]:
+        if version < 1:
+            raise ValueError("Version must be a positive integer: %s" % version)
+        versions = self._data.get(item, {})
+        if version > 1 and (version - 1) not in versions:
             raise KeyError("Cannot assign version %i of item before adding "
                            "version %i" % (version, version - 1))
-        if version in self._data[item]:
+        if version in versions:
             raise KeyError("Cannot overwrite version %i of %s" %
                            (version, item))
 
-        self._data[item][version] = value
+        self._data.setdefault(item, {})[version] = value
 
 
 def as_nested_lists(obj):
